@@ -38,7 +38,13 @@ func init() {
 						row["panic"] = fmt.Sprint(r)
 					}
 				}()
-				err := vm.Run(string(src))
+				// Run = Parse + RunAfterParsed (rollvm.go); timed separately: the operation budget bounds the
+				// execution, not the parse of a long source (that is the parse budget's job)
+				err := vm.Parse(string(src))
+				row["parse_ms"] = time.Since(t0).Milliseconds()
+				if err == nil {
+					err = vm.RunAfterParsed()
+				}
 				if err != nil {
 					row["err"] = err.Error()
 				} else {
